@@ -138,7 +138,13 @@ def instances(rng, q):
         ('SimpleNamespace', types.SimpleNamespace()), ('SimpleNamespace', types.SimpleNamespace(b=1, a='x' * 40)),
         ('namedtuple', Point(1, 2)), ('namedtuple', Point([1], {'a': 2})), ('namedtuple', Single(None)),
         ('partial', functools.partial(int, '1', base=2)), ('partial', functools.partial(sorted, key=len)),
-        ('partial', functools.partial(len)),
+        ('partial', functools.partial(len)), ('partial', functools.partial(functools.partial(int, base=2), '11')),
+        ('exception', OSError(2, 'msg', 'file.txt')), ('exception', KeyError()), ('exception', Exception('a' * 100, {'k': [1]})),
+        ('namedtuple', Point(Point(1, 2), [Single('x' * 50)])),
+        ('OrderedDict', collections.OrderedDict((('k%d' % i), i) for i in range(12))),
+        ('Counter', collections.Counter({'a' * 30: 3, 'b': 3, 'c': 1})),
+        ('deque', collections.deque(['x' * 30, 'y' * 30, 'z' * 30], maxlen=3)),
+        ('SimpleNamespace', types.SimpleNamespace(z=types.SimpleNamespace(a=1), a=[types.SimpleNamespace()])),
         ('exception', ValueError()), ('exception', KeyError('k')), ('exception', OSError(2, 'msg')), ('exception', MyErr('a', [1])),
         ('purepath', pathlib.PurePosixPath('a/b/c')), ('purepath', pathlib.PurePosixPath('/')), ('purepath', pathlib.PurePosixPath('.')),
         ('purepath', pathlib.PureWindowsPath('C:/x/y')), ('purepath', pathlib.PurePosixPath('/'.join(['segment%d' % i for i in range(15)]))),
